@@ -101,6 +101,10 @@ type Exec struct {
 	lastNow    *T
 	approx     []string
 	timerOf    map[*Value]*Timer
+	vecs       map[*Value]*vecState
+	guard      *T
+	speculating bool
+	noMerge    bool
 	asserts    map[string]int
 
 	res *PathResult
@@ -420,6 +424,9 @@ func (ex *Exec) branch(cond *T) bool {
 	if ex.initMode > 0 {
 		panic(unsupported{"symbolic branch during package init"})
 	}
+	if ex.speculating {
+		panic(specAbort{"fork inside speculative region"})
+	}
 	ex.res.Decisions++
 	if ex.replaying() {
 		d := ex.prefix[ex.pos]
@@ -442,7 +449,7 @@ func (ex *Exec) branch(cond *T) bool {
 	}
 	if !haveSide {
 		// no witness model: ask for the true side first
-		r, m := ex.solver.Check(ex.pc, cond, true)
+		r, m := ex.solver.Check(ex.pc, cond, true, nil)
 		switch r {
 		case Sat:
 			side = true
@@ -450,7 +457,7 @@ func (ex *Exec) branch(cond *T) bool {
 		case Unsat:
 			side = false
 			// false side must be feasible if the pc is; get a model lazily
-			r2, m2 := ex.solver.Check(ex.pc, c.Not(cond), true)
+			r2, m2 := ex.solver.Check(ex.pc, c.Not(cond), true, nil)
 			if r2 == Unsat {
 				panic(pathEnd{"path condition infeasible"})
 			}
@@ -471,7 +478,8 @@ func (ex *Exec) branch(cond *T) bool {
 	if side {
 		other = c.Not(cond)
 	}
-	r, m := ex.solver.Check(ex.pc, other, true)
+	ex.solver.Where = "branch@" + ex.site()
+	r, m := ex.solver.Check(ex.pc, other, true, ex.model)
 	if r == Sat || r == Unknown {
 		if r == Unknown {
 			ex.res.Unknown = append(ex.res.Unknown, "branch feasibility at "+ex.site())
@@ -502,6 +510,9 @@ func (ex *Exec) choose(n int) int {
 	}
 	if ex.initMode > 0 {
 		return 0
+	}
+	if ex.speculating {
+		panic(specAbort{"choice inside speculative region"})
 	}
 	ex.res.Decisions++
 	if ex.replaying() {
@@ -587,6 +598,9 @@ func (ex *Exec) siteForViolation() string {
 
 // fail records an unconditional violation on the current path and ends it.
 func (ex *Exec) fail(kind, label string) {
+	if ex.speculating {
+		panic(specAbort{"failure inside speculative region"})
+	}
 	if ex.initMode > 0 {
 		panic(unsupported{"failure during init: " + label})
 	}
@@ -603,7 +617,7 @@ func (ex *Exec) ensureModel() {
 	if ex.model != nil {
 		return
 	}
-	r, m := ex.solver.Check(ex.pc, nil, true)
+	r, m := ex.solver.Check(ex.pc, nil, true, nil)
 	switch r {
 	case Sat:
 		ex.setModel(m)
@@ -620,13 +634,29 @@ func (ex *Exec) oblige(ob *T, kind, label string) {
 		return
 	}
 	c := ex.c
+	if ex.guard != nil && ob.op != OAnd {
+		ob = c.Or(c.Not(ex.guard), ob)
+		if ob.IsTrue() {
+			return
+		}
+		if ob.op == OAnd {
+			// do not split a guarded obligation again
+			ex.obligeOne(ob, kind, label)
+			return
+		}
+	}
 	if ob.op == OAnd {
 		for _, a := range ob.a {
 			ex.oblige(a, kind, label)
 		}
 		return
 	}
-	if ex.pcSet[ob.id] {
+	ex.obligeOne(ob, kind, label)
+}
+
+func (ex *Exec) obligeOne(ob *T, kind, label string) {
+	c := ex.c
+	if ob.IsTrue() || ex.pcSet[ob.id] {
 		return
 	}
 	if ex.initMode > 0 {
@@ -655,7 +685,8 @@ func (ex *Exec) oblige(ob *T, kind, label string) {
 	} else if ex.ev != nil && !ex.ev.Bool(ob) {
 		violated, vm = true, ex.model
 	} else {
-		r, m := ex.solver.Check(ex.pc, c.Not(ob), true)
+		ex.solver.Where = kind + ":" + label + "@" + ex.site()
+		r, m := ex.solver.Check(ex.pc, c.Not(ob), true, ex.model)
 		switch r {
 		case Unsat:
 			ex.res.Discharged++
@@ -676,9 +707,11 @@ func (ex *Exec) oblige(ob *T, kind, label string) {
 		if ob.IsFalse() {
 			panic(pathEnd{"violation: " + label})
 		}
+		pcBefore := ex.pc
+		wit := ex.model
 		ex.addPC(ob)
 		if ex.ev == nil || !ex.ev.Bool(ob) {
-			r, m := ex.solver.Check(ex.pc, nil, true)
+			r, m := ex.solver.Check(pcBefore, ob, true, wit)
 			switch r {
 			case Sat:
 				ex.setModel(m)
@@ -705,11 +738,13 @@ func (ex *Exec) assume(cond *T) {
 		ex.addPC(cond)
 		return
 	}
+	pcBefore := ex.pc
+	wit := ex.model
 	ex.addPC(cond)
 	if ex.ev != nil && ex.ev.Bool(cond) {
 		return
 	}
-	r, m := ex.solver.Check(ex.pc, nil, true)
+	r, m := ex.solver.Check(pcBefore, cond, true, wit)
 	switch r {
 	case Sat:
 		ex.setModel(m)
@@ -720,6 +755,67 @@ func (ex *Exec) assume(cond *T) {
 		ex.tainted = true
 		ex.res.Unknown = append(ex.res.Unknown, "assumption feasibility at "+ex.site())
 	}
+}
+
+// tryConcretize returns a constant when the path condition forces t to a single value.
+func (ex *Exec) tryConcretize(t *T) *T {
+	if t.IsConst() || ex.initMode > 0 || ex.speculating {
+		return t
+	}
+	if !ex.replaying() && ex.ev == nil {
+		ex.logEvent(0)
+		return t
+	}
+	c := ex.c
+	if ex.replaying() {
+		d := ex.prefix[ex.pos]
+		ex.logEvent(d)
+		if !ex.replaying() {
+			ex.setModel(ex.w.curItem.Model)
+		}
+		if d == 0 {
+			return t
+		}
+		// the unique value was recorded in the following two log entries (hi, lo 15-bit halves + sign)
+		v := ex.readLoggedValue()
+		k := c.ConstS(t.s.W, v)
+		ex.addPC(c.Eq(t, k))
+		return k
+	}
+	v := ex.ev.Eval(t)
+	k := c.Const(t.s.W, v)
+	ex.solver.Where = "concretize@" + ex.site()
+	r, _ := ex.solver.Check(ex.pc, c.Ne(t, k), false, ex.model)
+	if r != Unsat {
+		ex.logEvent(0)
+		return t
+	}
+	ex.logEvent(1)
+	ex.writeLoggedValue(sext(v, t.s.W))
+	ex.addPC(c.Eq(t, k))
+	return k
+}
+
+// values are stored in the decision log as five 13-bit chunks (sign-extended 64-bit)
+func (ex *Exec) writeLoggedValue(v int64) {
+	u := uint64(v)
+	for i := 0; i < 5; i++ {
+		ex.logEvent(int16((u >> (13 * uint(i))) & 0x1fff))
+	}
+}
+
+func (ex *Exec) readLoggedValue() int64 {
+	var u uint64
+	for i := 0; i < 5; i++ {
+		d := ex.prefix[ex.pos]
+		ex.logEvent(d)
+		u |= uint64(d) << (13 * uint(i))
+	}
+	if !ex.replaying() {
+		ex.setModel(ex.w.curItem.Model)
+	}
+	// sign-extend from 65 bits is not needed: 5*13 = 65 >= 64
+	return int64(u)
 }
 
 // concretize forks over the values of t in [lo, hi].
@@ -1036,6 +1132,9 @@ func (ex *Exec) visit(fr *frame, instr ssa.Instruction) continuation {
 			if fr.symIf[in] > ex.unwind {
 				panic(unwindExceeded{fmt.Sprintf("loop in %s exceeds unwind bound %d", fr.fn, ex.unwind)})
 			}
+		}
+		if !cond.IsConst() && !ex.pcSet[cond.id] && !ex.pcSet[ex.c.Not(cond).id] && ex.tryMerge(fr, in, cond) {
+			return kJump
 		}
 		if ex.branch(cond) {
 			succ = 0
